@@ -207,6 +207,31 @@ def check_sso(case, t):
     want = 2 * math.pi / TROPICAL_YEAR
     if not t.margin("sso: J2 node drift vs mean solar rate [rel] / 1e-4", abs(rate / want - 1), 1e-4, case):
         t.fail("sso/node-drift", "sun-synchronous inclination makes the J2 node drift equal the mean solar rate", case, want, rate)
+    # the same drift measured on the points of Orbit.iter() / Orbit.ephem() over the 10 days (one propagator, many dates)
+    for how in ("iter", "ephem"):
+        orb2 = Orbit([a, e, i, 1.0, 0.5, 0.2], d0, "keplerian_mean", "EME2000", "J2")
+        try:
+            if how == "iter":
+                pts = list(orb2.iter(stop=timedelta(days=days), step=timedelta(days=2)))
+            else:
+                pts = list(orb2.ephem(stop=timedelta(days=days), step=timedelta(days=2)))
+            t.trans(len(pts))
+            oms = [float(p_.copy(form="keplerian")[3]) for p_ in pts]
+            tks = [(p_.date - d0).total_seconds() for p_ in pts]
+        except Exception as ex:
+            t.fail("sso/j2-raises", "J2 propagation of a sun-synchronous orbit", case, "states", repr(ex), how)
+            return
+        if len(pts) != 6:
+            t.fail("sso/node-drift/iter-count", "iter yields start..stop inclusive", case, 6, len(pts))
+            continue
+        worst = 0.0
+        for k in range(1, len(pts)):
+            rk = ((oms[k] - 1.0 + math.pi) % (2 * math.pi) - math.pi) / tks[k]
+            worst = max(worst, abs(rk / want - 1))
+        if not t.margin("sso: J2 node drift along iter()/ephem() points [rel] / 1e-4", worst, 1e-4, case):
+            t.fail("sso/node-drift/iter", "sun-synchronous inclination makes the J2 node drift equal the mean solar rate at every point of an ephemeris",
+                   case, want, [((oms[k] - 1.0 + math.pi) % (2 * math.pi) - math.pi) / tks[k] for k in range(1, len(pts))], how)
+            break
     t.outcome(("sso", round(i, 2)))
 
 
@@ -555,9 +580,107 @@ def check_beta(case, t):
     t.outcome(("beta", cls, int(math.degrees(ref) // 30)))
 
 
+
+LTAN_FRAMES = ["EME2000", "GCRF", "MOD", "TOD", "TEME", "ITRF", "PEF"]
+LTAN_FORMS = ["cartesian", "keplerian", "spherical", "keplerian_mean"]
+
+
+def check_orb2ltan(case, t):
+    """orb2ltan of the same physical orbit handed over in several frames / forms = raan2ltan of its EME2000 node."""
+    from mc.ref import twobody
+    from beyond.dates import Date
+    from beyond.orbits import Orbit
+    from beyond.utils.ltan import orb2ltan, raan2ltan, ltan2raan
+
+    _ensure()
+    d = Date(case["mjd"], case["sec"])
+    el = BETA_ORBITS[case["orbit"]]
+    rv = twobody.kep_to_cart(*el, _G["mu"])
+    Om = el[3]
+    ty = case["type"]
+    clause = "local time of ascending node of an orbit is that of its node's right ascension in EME2000, whatever frame/form the orbit is given in"
+    try:
+        orb = Orbit(rv, d, "cartesian", "EME2000", None)
+        if case["frame"] != "EME2000":
+            orb = orb.copy(frame=case["frame"])
+        if case["form"] != "cartesian":
+            orb = orb.copy(form=case["form"])
+        lt = float(orb2ltan(orb, ty))
+        want = float(raan2ltan(d, Om, ty))
+        back = float(ltan2raan(d, lt, ty))
+        t.trans(4)
+    except Exception as ex:
+        t.fail("ltan/orb2ltan/raises", clause, case, "a value", repr(ex))
+        return
+    err = abs((lt - want + 43200) % 86400 - 43200)
+    errb = abs((back - Om + math.pi) % (2 * math.pi) - math.pi)
+    # frame change and back + element extraction: a few 1e-14 rad on the node (divided by sin i)
+    tol = 1e-13 / max(math.sin(el[2]), 0.05) * 43200 / math.pi + 1e-10
+    cls = "eme2000" if case["frame"] == "EME2000" else "other-frame"
+    if not t.margin("orb2ltan vs raan2ltan(EME2000 node) [s]", err, tol, case):
+        t.fail("ltan/orb2ltan/" + cls, clause, case, want, lt, f"{err:.6f} s off; ltan2raan gives {back:.9f} instead of {Om}; frame {case['frame']} form {case['form']}")
+    elif errb > tol * math.pi / 43200 + 1e-12:
+        t.fail("ltan/orb2ltan/" + cls, clause, case, Om, back, "ltan2raan(orb2ltan(orb)) is not the EME2000 node")
+    t.outcome(("orb2ltan", case["frame"], case["form"]))
+
+
+LUNAR = [(1.9e6, 0.01, 1.5, 0.4, 0.3, 0.2), (2.5e6, 0.1, 0.5, 3.0, 1.0, 4.0), (6.0e6, 0.3, 2.4, 5.0, 2.0, 1.0), (1.8e6, 0.001, 1.2, 2.0, 0.0, 0.0)]
+HELIO = [(1.5e11, 0.02, 0.3, 1.0, 2.0, 3.0), (1.0e11, 0.2, 1.2, 4.0, 1.0, 0.5), (2.3e11, 0.09, 2.8, 0.3, 5.0, 2.0), (5.8e10, 0.2, 0.12, 0.8, 0.5, 1.0)]
+
+
+def check_beta_body(case, t):
+    """Orbits expressed in a frame centred on another obscuring body (Moon, Sun), as the docstring of beta() allows:
+    beta = elevation of the secondary body above the orbit plane, everything evaluated in that body's own frame."""
+    from mc.ref import twobody
+    from beyond.dates import Date
+    from beyond.orbits import Orbit
+    from beyond.utils.beta import beta
+    from beyond.env.solarsystem import get_body
+
+    _ensure()
+    centre, body = case["centre"], case["body"]
+    frame = _frame(centre)
+    mu = float(frame.center.body.mu)
+    d = Date(case["mjd"], case["sec"])
+    el = (LUNAR if centre == "Moon" else HELIO)[case["orbit"]]
+    rv = twobody.kep_to_cart(*el, mu)
+    # direction of the secondary seen from the centre, in the axes of the centre's frame (EME2000 for the Moon, MOD for the Sun)
+    axes = "EME2000" if centre == "Moon" else "MOD"
+
+    def geo(name):
+        return np.array(get_body(name).propagate(d).copy(frame=axes, form="cartesian"), dtype=float)[:3]
+
+    sec = geo(body) - geo(centre)
+    t.trans(2)
+    shat = sec / np.linalg.norm(sec)
+    r, v = rv[:3], rv[3:]
+    Q = r / np.linalg.norm(r)
+    W = np.cross(r, v)
+    W /= np.linalg.norm(W)
+    S = np.cross(W, Q)
+    ref = math.atan2(shat @ W, math.hypot(shat @ Q, shat @ S))
+    sig = f"beta/{centre.lower()}-centred-frame"
+    clause = "beta equals the elevation of the body above the orbit plane (orbit expressed in a frame centred on the obscuring body)"
+    try:
+        got = float(beta(Orbit(rv, d, "cartesian", frame, None), body))
+        t.trans()
+    except Exception as ex:
+        t.fail(sig + "/raises", clause, case, ref, repr(ex))
+        return
+    if not math.isfinite(got) or not (-math.pi / 2 <= got <= math.pi / 2):
+        t.fail(sig + "/range", clause, case, ref, got)
+        return
+    # direction of the secondary: difference of two ~1.5e11 m vectors -> 1e-16 * 1.5e11 / distance
+    tol = 1e-14 + 4e-16 * 1.5e11 / np.linalg.norm(sec) * 8 + (3e-8 if abs(ref) > 1.5 else 0.0)
+    if not t.margin(f"beta vs elevation over the QSW plane, {centre}-centred [rad]", abs(got - ref), tol, case):
+        t.fail(sig, clause, case, ref, got, f"difference {math.degrees(got-ref):.4f} deg; {body} seen from a {centre}-centred orbit")
+    t.outcome(("beta-body", centre, body, int(math.degrees(ref) // 30)))
+
+
 # ---------------------------------------------------------------------------
 
-CHECKS = dict(lambert=check_lambert, sso=check_sso, sso_hist=check_sso_hist, bplane=check_bplane, ltan=check_ltan, walker=check_walker, beta=check_beta)
+CHECKS = dict(lambert=check_lambert, sso=check_sso, sso_hist=check_sso_hist, bplane=check_bplane, ltan=check_ltan, walker=check_walker, beta=check_beta,
+              orb2ltan=check_orb2ltan, beta_body=check_beta_body)
 
 
 def check_case(case, t):
@@ -608,6 +731,15 @@ def cases(tier):
                 ltan = 0.0 if k == 0 else (86399.999999 if k == n - 1 else k * 86400.0 / n + 0.5)
                 lt.append(dict(kind="ltan", mjd=mjd, sec=sec, type=ty, raan=raan))
                 lt.append(dict(kind="ltan", mjd=mjd, sec=sec, type=ty, ltan=ltan))
+    no = 6 if q else 12
+    for mjd, sec in ltan_dates(n)[:: (4 if q else 8)]:
+        for oi in [k for k in range(len(BETA_ORBITS)) if 0.3 < BETA_ORBITS[k][2] < math.pi - 0.1][:no]:
+            for fr in LTAN_FRAMES:
+                for fm in LTAN_FORMS if fr in ("EME2000", "TEME", "ITRF") else LTAN_FORMS[:2]:
+                    if fm != "cartesian" and BETA_ORBITS[oi][1] < 1e-4:
+                        continue  # element sets of a (near-)circular orbit are singular (C01's subject): cartesian only
+                    for ty in ("mean", "true"):
+                        lt.append(dict(kind="orb2ltan", mjd=mjd, sec=sec, orbit=oi, frame=fr, form=fm, type=ty))
     out["ltan"] = lt
     # Walker
     tmax = 24 if q else 72
@@ -632,6 +764,11 @@ def cases(tier):
                     bt.append(dict(kind="beta", mjd=mjd, sec=sec, orbit=oi, frame=fr, body=body))
         for sgn in (1, -1):
             bt.append(dict(kind="beta", mjd=mjd, sec=sec, frame="EME2000", body="Sun", pole=sgn))
+    for mjd, sec in beta_dates(nd):
+        for oi in range(4):
+            for centre, bodies_ in (("Moon", ("Sun", "Earth")), ("Sun", ("Moon", "Earth"))):
+                for body in bodies_:
+                    bt.append(dict(kind="beta_body", mjd=mjd, sec=sec, orbit=oi, centre=centre, body=body))
     out["beta"] = bt
     return out
 
